@@ -375,6 +375,10 @@ class Polarization(BaseState):
 
         operation.compute_dimensions(0, jnp.array([0]))
 
+        # einsum would silently broadcast an operator with axes of length one
+        if operation.operator.shape != (self.dimensions, self.dimensions):
+            raise ValueError("Operator dimensions do not match the state dimensions")
+
         if self.expansion_level == ExpansionLevel.Vector:
             assert isinstance(self.state, jnp.ndarray)
             assert self.state.shape == (self.dimensions, 1)
